@@ -50,7 +50,7 @@ def prepare_matrix(work, tag, families=None, cfg=None, only=None):
             entries = [e for e in entries if "lin_only" not in getattr(e, "tags", ())]
         if not entries:
             continue
-        chunk = 60
+        chunk = 1 if fam == "edge" else 60
         for ci in range(0, len(entries), chunk):
             part = entries[ci:ci + chunk]
             import re as _re
@@ -69,6 +69,12 @@ def prepare_matrix(work, tag, families=None, cfg=None, only=None):
     for j, (ok, err) in zip(jobs, res):
         if ok:
             out_jobs.append(j)
+            continue
+        if j[0] == "edge":
+            # an instantiation beyond a libfunc's domain: the compiler is expected to reject it
+            msg = [l for l in err.split("\n") if "Failed to specialize" in l or "error" in l][:1]
+            EDGE_REJECTED.append({"entry": j[3][0].name, "config": tag,
+                                  "message": (msg[0] if msg else err.strip()[-160:])[:200]})
             continue
         if j[0] == "gen" and "panicked" in err:
             # A generated program made the *compiler* panic (an internal compiler error on an
@@ -102,6 +108,7 @@ def prepare_matrix(work, tag, families=None, cfg=None, only=None):
 
 
 COMPILER_PANICS = []
+EDGE_REJECTED = []
 
 
 def prepare_corpus(work, tag, cfg, only=None):
@@ -391,6 +398,7 @@ def generic(args, prop, worker, cfgs, confirm, level="model_checking", extra_tas
                                              if v not in ("sat", "unsat"))},
         "corpus_cases_skipped": corpus_skipped,
         "generated_programs_dropped_compiler_panic": list(COMPILER_PANICS),
+        "edge_instantiations_rejected_by_compiler": list(EDGE_REJECTED),
         "exhaustive": False,
         "bounds": f"see assumptions; per-query solver cap {tp['query_ms']} ms, per-function "
                   f"budget {tp['func_budget_s']} s",
@@ -558,7 +566,7 @@ GAS_CFGS_FULL = GAS_CFGS_QUICK + [
 
 # quick tiers leave out the families another property's quick tier already analyses
 CORE_FAMS = ["arith", "cast", "felt", "bool", "wide", "bounded", "plumb", "gas", "hash", "spec",
-             "bigap", "flow"]
+             "bigap", "flow", "edge"]
 
 
 def fams_for(args, quick):
